@@ -38,7 +38,7 @@ func decodeAuto(b []byte, rev int, compressed bool) error {
 
 // C07 — a truncated block or message is never accepted.
 func C07(c *vk.Ctx) {
-	c.Rule("corpus = the C01 blocks (every registry composition, plus name-based enums with a member numbered 0, bare and under Array / Nullable; x value sequences of length <= 1, length <= 2 for compositions of depth <= 1; thorough: length <= 2 everywhere) at revision 54460 and the C17 messages (base and every single-field deviation) at three revisions; for each encoding EVERY proper prefix is decoded through the typed target and, where the type is inferable, through Auto; the same blocks wrapped in None / LZ4 / ZSTD frames (one frame and two frames) are cut at every position of the framed stream. A prefix that the reference model parses as a complete message is not a truncation and is excluded. Large values (a string of 1 MiB + 11 bytes; thorough also 1 MiB, 2 MiB + 5, 128 KiB + 3) as the only, first, last, array-element, nullable, dictionary and map value of a block (plain and as a sequence of 1 MiB LZ4 frames) and as the last field of TableColumns / Exception / ClientData: cut at every byte of the first and last 80 bytes and around the value's start, within +-3 of every 64 KiB multiple from the stream start and from the value start, and every 4099th byte (a stated subset: cutting 1 MiB everywhere is 10^12 byte copies). Many-row blocks (4095 / 4096 / 8192 rows; thorough also 4097 / 12288 / 65536) of every base column, every composition over Nothing and seven wrappers: cut at every byte of the first and last 80 and within +-3 of the first and last sixteen multiples of 4096. Oracle: decoding returns an error, never nil. distinct_nontrivial = (encoding, cut position, decoder) cases.")
+	c.Rule("corpus = the C01 blocks (every registry composition, plus name-based enums with a member numbered 0, bare and under Array / Nullable; x value sequences of length <= 1, length <= 2 for compositions of depth <= 1; thorough: length <= 2 everywhere) at revision 54460 and the C17 messages (base and every single-field deviation) at three revisions; for each encoding EVERY proper prefix is decoded through the typed target and, where the type is inferable, through Auto (LowCardinality compositions also as a server may write them, with 16-, 32- and 64-bit keys); the same blocks wrapped in None / LZ4 / ZSTD frames (one frame and two frames) are cut at every position of the framed stream. A prefix that the reference model parses as a complete message is not a truncation and is excluded. Large values (a string of 1 MiB + 11 bytes; thorough also 1 MiB, 2 MiB + 5, 128 KiB + 3) as the only, first, last, array-element, nullable, dictionary and map value of a block (plain and as a sequence of 1 MiB LZ4 frames) and as the last field of TableColumns / Exception / ClientData: cut at every byte of the first and last 80 bytes and around the value's start, within +-3 of every 64 KiB multiple from the stream start and from the value start, and every 4099th byte (a stated subset: cutting 1 MiB everywhere is 10^12 byte copies). Many-row blocks (4095 / 4096 / 8192 rows; thorough also 4097 / 12288 / 65536) of every base column, every composition over Nothing and seven wrappers: cut at every byte of the first and last 80 and within +-3 of the first and last sixteen multiples of 4096. Oracle: decoding returns an error, never nil. distinct_nontrivial = (encoding, cut position, decoder) cases.")
 	quick := c.Quick()
 	rev := 54460
 	// besides the registry: name-based enums that have a member with the number 0 (a
@@ -69,7 +69,7 @@ func C07(c *vk.Ctx) {
 			if len(idx) == 0 {
 				continue
 			}
-			col, _, _, err := build(e, idx)
+			col, _, canon, err := build(e, idx)
 			if err != nil {
 				continue
 			}
@@ -117,6 +117,25 @@ func C07(c *vk.Ctx) {
 				}
 			}
 			check(full, false, "plain", len(full))
+			// the same contents as a server may write them: LowCardinality keys wider than the
+			// dictionary needs (the decoder has a branch per key width)
+			if strings.Contains(e.Label, "LowCardinality") && !noRef(e.Label) {
+				for _, kw := range []int{1, 2, 3} {
+					var w refwire.W
+					refcol.LCKeyWidth = kw
+					msg, _ := vk.Recover(func() {
+						refcol.EncodeBlockBody(&w, rev, refwire.BlockInfo{BucketNum: -1}, len(canon), []refcol.BlockCol{{Name: "col", Type: col.T, Vals: canon}})
+					})
+					refcol.LCKeyWidth = -1
+					if msg != "" {
+						continue
+					}
+					if rows, derr := decodeTyped(e, w.B, rev, false); derr != nil || rows != len(canon) {
+						continue // C01 reports wide-key blocks that do not decode
+					}
+					check(w.B, false, fmt.Sprintf("plain-keys%d", 8<<kw), len(w.B))
+				}
+			}
 			// compressed variants for a thinner slice of the corpus (every composition, first sequences)
 			if len(idx) == 1 && idx[0] <= 1 {
 				for _, m := range []struct {
